@@ -43,50 +43,50 @@ def check(ctx):
     ok = len(dc) == 1
     if ok:
         d = dc[0]
-        ok = unparse(d.key) == "(self._name, i)" and unparse(d.value) == "(_concat, [(self.frame._name, j) for j in range(start, end)])" and unparse(d.generators[0].target) == "(i, (start, end))" and unparse(d.generators[0].iter) == "enumerate(zip(new_partitions_boundaries, new_partitions_boundaries[1:]))"
+        ok = eqv(d.key, "(self._name, i)") and eqv(d.value, "(_concat, [(self.frame._name, j) for j in range(start, end)])") and eqv(d.generators[0].target, "(i, (start, end))") and eqv(d.generators[0].iter, "enumerate(zip(new_partitions_boundaries, new_partitions_boundaries[1:]))")
     ok = ok and bool(find("new_partitions_boundaries = self._partitions_boundaries", lay))
     ctx.ob("ABS.fewer.tiling", lay, "output i = _concat of input partitions range(b[i], b[i+1]) over consecutive boundary pairs", ok, "" if ok else "the runs of input partitions overlap, leave gaps or are reordered")
     cb = fewer.own_methods["_compute_partition_boundaries"]
-    ok = bool(find("npartitions_ratio = n_old_partitions / n_new_partitions", cb)) and bool(find("new_partitions_boundaries = [int(new_partition_index * npartitions_ratio) for new_partition_index in range(n_new_partitions + 1)]", cb)) and (all(unparse(r.value) == "_clean_new_division_boundaries(new_partitions_boundaries, n_old_partitions)" for r in returns(cb)) and bool(returns(cb)))
+    ok = bool(find("npartitions_ratio = n_old_partitions / n_new_partitions", cb)) and bool(find("new_partitions_boundaries = [int(new_partition_index * npartitions_ratio) for new_partition_index in range(n_new_partitions + 1)]", cb)) and (all(eqv(r.value, "_clean_new_division_boundaries(new_partitions_boundaries, n_old_partitions)") for r in returns(cb)) and bool(returns(cb)))
     ctx.ob("ABS.fewer.boundaries", cb, "boundaries = int(i * old / new) for i in range(new + 1), then cleaned", ok)
     cl = model.module(RP).func("_clean_new_division_boundaries")
-    ok = bool(find("new_partitions_boundaries.insert(0, 0)", cl)) and bool(find("new_partitions_boundaries[-1] = frame_npartitions", cl)) and any(unparse(n.test) == "new_partitions_boundaries[0] > 0" for n in walk_no_nested(cl) if isinstance(n, ast.If)) and any(unparse(n.test) == "new_partitions_boundaries[-1] < frame_npartitions" for n in walk_no_nested(cl) if isinstance(n, ast.If))
+    ok = bool(find("new_partitions_boundaries.insert(0, 0)", cl)) and bool(find("new_partitions_boundaries[-1] = frame_npartitions", cl)) and any(eqv(n.test, "new_partitions_boundaries[0] > 0") for n in walk_no_nested(cl) if isinstance(n, ast.If)) and any(eqv(n.test, "new_partitions_boundaries[-1] < frame_npartitions") for n in walk_no_nested(cl) if isinstance(n, ast.If))
     ctx.ob("ABS.fewer.boundaries.clean", cl, "boundaries are made to start at 0 and to end at the input partition count", ok)
     dv = fewer.own_methods["_divisions"]
-    ok = (all(unparse(r.value) == "tuple((self.frame.divisions[i] for i in self._partitions_boundaries))" for r in returns(dv)) and bool(returns(dv)))
+    ok = (all(eqv(r.value, "tuple((self.frame.divisions[i] for i in self._partitions_boundaries))") for r in returns(dv)) and bool(returns(dv)))
     ctx.ob("ABS.fewer.divisions", dv, "divisions = the input divisions at the boundaries", ok)
     pb = fewer.own_methods["_partitions_boundaries"]
-    ok = (all(unparse(r.value) == "self._compute_partition_boundaries(npartitions, npartitions_input)" for r in returns(pb)) and bool(returns(pb))) and bool(find("npartitions = self.new_partitions", pb)) and bool(find("npartitions_input = self.frame.npartitions", pb))
+    ok = (all(eqv(r.value, "self._compute_partition_boundaries(npartitions, npartitions_input)") for r in returns(pb)) and bool(returns(pb))) and bool(find("npartitions = self.new_partitions", pb)) and bool(find("npartitions_input = self.frame.npartitions", pb))
     ctx.ob("ABS.fewer.boundaries.args", pb, "_compute_partition_boundaries(new, old) in that order", ok)
     # ---------------- more
     ns = more.own_methods["_nsplits"]
     ok = bool(find("(div, mod) = divmod(self.new_partitions, df.npartitions)", ns) or find("div, mod = divmod(self.new_partitions, df.npartitions)", ns)) and bool(find("nsplits = [div] * df.npartitions", ns)) and bool(find("nsplits[-1] += mod", ns))
     ctx.ob("ABS.more.counts", ns, "nsplits = [new // old] * old, remainder added to the last: the counts sum to the requested number", ok)
     ml = more.own_methods["_layer"]
-    stores = [a for a in ast.walk(ml) if isinstance(a, ast.Assign) and isinstance(a.targets[0], ast.Subscript) and unparse(a.targets[0].slice) == "(new_name, j)"]
+    stores = [a for a in ast.walk(ml) if isinstance(a, ast.Assign) and isinstance(a.targets[0], ast.Subscript) and eqv(a.targets[0].slice, "(new_name, j)")]
     incs = find("j += 1", ml)
     ctx.count("output_partition_stores", len(stores))
     ctx.floor("output_partition_stores", 2)
     ok = len(stores) == 2 and len(incs) == 2 and all(any(control_equivalent(ml, s_, i_[0]) and s_.lineno < i_[0].lineno for i_ in incs) for s_ in stores) and bool(find("j = 0", ml))
     ctx.ob("ABS.more.counter", ml, "every emitted partition (new_name, j) is followed by exactly one j += 1; j starts at 0", ok, "" if ok else "output partitions are skipped or overwritten")
-    ok = bool(find("dsk[new_name, j] = (df._name, i)", ml)) and bool(find("dsk[split_name, i] = (split_evenly, (df._name, i), k)", ml)) and bool(find("dsk[new_name, j] = (getitem, (split_name, i), jj)", ml)) and any(isinstance(l, ast.For) and unparse(l.iter) == "range(k)" and unparse(l.target) == "jj" for l in ast.walk(ml)) and any(isinstance(l, ast.For) and unparse(l.iter) == "enumerate(nsplits)" for l in ast.walk(ml))
+    ok = bool(find("dsk[new_name, j] = (df._name, i)", ml)) and bool(find("dsk[split_name, i] = (split_evenly, (df._name, i), k)", ml)) and bool(find("dsk[new_name, j] = (getitem, (split_name, i), jj)", ml)) and any(isinstance(l, ast.For) and eqv(l.iter, "range(k)") and eqv(l.target, "jj") for l in ast.walk(ml)) and any(isinstance(l, ast.For) and eqv(l.iter, "enumerate(nsplits)") for l in ast.walk(ml))
     ctx.ob("ABS.more.pieces", ml, "partition i is passed through (k == 1) or cut into pieces 0..k-1 of split_evenly, emitted in order", ok)
     md = more.own_methods["_divisions"]
-    ok = (all(unparse(r.value) == "(None,) * (1 + sum(self._nsplits))" for r in returns(md)) and bool(returns(md)))
+    ok = (all(eqv(r.value, "(None,) * (1 + sum(self._nsplits))") for r in returns(md)) and bool(returns(md)))
     ctx.ob("ABS.more.divisions", md, "1 + sum(nsplits) unknown divisions", ok)
     se = model.module(DC).func("split_evenly")
-    ok = bool(find("divisions = np.linspace(0, len(df), k + 1).astype(int)", se)) and (all(unparse(r.value) == "{i: df.iloc[divisions[i]:divisions[i + 1]] for i in range(k)}" for r in returns(se)) and bool(returns(se)))
+    ok = bool(find("divisions = np.linspace(0, len(df), k + 1).astype(int)", se)) and (all(eqv(r.value, "{i: df.iloc[divisions[i]:divisions[i + 1]] for i in range(k)}") for r in returns(se)) and bool(returns(se)))
     ctx.ob("ABS.more.split-evenly", se, "split_evenly: piece i = rows [d[i], d[i+1]) with d = linspace(0, len, k + 1)", ok, "" if ok else "the pieces of a partition overlap, leave rows out or are mis-numbered")
     # ---------------- divisions
     dd = divs.own_methods["_divisions"]
-    ok = (all(unparse(r.value) == "self.new_divisions" for r in returns(dd)) and bool(returns(dd)))
+    ok = (all(eqv(r.value, "self.new_divisions") for r in returns(dd)) and bool(returns(dd)))
     ctx.ob("DELEG.divisions", dd, "RepartitionDivisions._divisions = the requested divisions", ok)
     # ---------------- RepartitionSize: same piece bookkeeping as RepartitionToMore (source index i, output counter j)
     rs = model.klass(RP, "RepartitionSize").own_methods["_layer"]
-    ok = bool(find("dsk[new_name, j] = (df._name, i)", rs)) and bool(find("dsk[split_name, i] = (split_evenly, (df._name, i), k)", rs)) and bool(find("dsk[new_name, j] = (getitem, (split_name, i), jj)", rs)) and len(find("j += 1", rs)) == 2 and any(isinstance(l, ast.For) and unparse(l.iter) == "enumerate(self._nsplits)" and unparse(l.target) == "(i, k)" for l in ast.walk(rs))
+    ok = bool(find("dsk[new_name, j] = (df._name, i)", rs)) and bool(find("dsk[split_name, i] = (split_evenly, (df._name, i), k)", rs)) and bool(find("dsk[new_name, j] = (getitem, (split_name, i), jj)", rs)) and len(find("j += 1", rs)) == 2 and any(isinstance(l, ast.For) and eqv(l.iter, "enumerate(self._nsplits)") and eqv(l.target, "(i, k)") for l in ast.walk(rs))
     ctx.ob("ABS.size.pieces", rs, "RepartitionSize: an unsplit source partition i is passed through as output piece j; split ones contribute their k pieces in order", ok, "" if ok else "a passed-through piece reads the wrong source partition: rows are lost and duplicated when an unsplit partition follows a split one")
     cat_ = [n for n in ast.walk(rs) if isinstance(n, ast.DictComp)]
-    ok = len(cat_) == 1 and unparse(cat_[0].value) == "(methods.concat, [(new_name, j) for j in range(start, end)])" and unparse(cat_[0].generators[0].iter) == "enumerate(zip(self._partition_boundaries, self._partition_boundaries[1:]))"
+    ok = len(cat_) == 1 and eqv(cat_[0].value, "(methods.concat, [(new_name, j) for j in range(start, end)])") and eqv(cat_[0].generators[0].iter, "enumerate(zip(self._partition_boundaries, self._partition_boundaries[1:]))")
     ctx.ob("ABS.size.tiling", rs, "output i = concat of pieces range(b[i], b[i+1]) over consecutive boundaries", ok)
 
 
